@@ -96,6 +96,13 @@ func main() {
 	defaultsH, defaultsT := *otp.DefaultHOTPParam, *otp.DefaultTOTPParam
 	deadline := time.Now().Add(*dur)
 	p1, p2 := otp.VerifPools()
+	msgCap := 256
+	if b, ok := p2.Get().(*[]byte); ok && b != nil {
+		if cap(*b) > 0 {
+			msgCap = cap(*b) // capacity of the pooled OCRA message buffer of this tree
+		}
+		p2.Put(b)
+	}
 	configs := []struct{ g, procs int }{{64, 16}, {8, 4}, {2, 2}, {16, 1}, {1, 1}} // high concurrency first: first-use effects (lazy initialisation) must happen under contention
 	per := *dur / time.Duration(len(configs))
 	for ci, cf := range configs {
@@ -188,6 +195,45 @@ func main() {
 							continue
 						}
 						cfg := su.Config()
+						if r.intn(3) == 0 {
+							// a configuration built by the program (any Raw text is allowed there): its length is chosen so that
+							// the HMAC message ends exactly at, just below or just above the capacity of the pooled message
+							// buffer (and at a few other powers of two) — the lengths at which "did append reallocate" flips
+							c := otp.SuiteConfig{Hash: otp.Algorithm(algo), Digits: 4 + r.intn(7), Challenge: otp.ChallengeFormat(1 + r.intn(6)), PasswordHash: otp.PasswordHashAlgorithm(1 + r.intn(3)), TimeStep: 1 + r.intn(60)}
+							c.IncludeCounter, c.IncludeChallenge, c.IncludePassword, c.IncludeSession, c.IncludeTimestamp = r.intn(2) == 0, r.intn(3) != 0, r.intn(3) == 0, r.intn(3) == 0, r.intn(2) == 0
+							fixed := 1
+							if c.IncludeCounter {
+								fixed += 8
+							}
+							if c.IncludeChallenge {
+								fixed += 128
+							}
+							if c.IncludePassword {
+								fixed += []int{0, 20, 32, 64}[c.PasswordHash]
+							}
+							if c.IncludeSession {
+								fixed += 128
+							}
+							if c.IncludeTimestamp {
+								fixed += 8
+							}
+							target := []int{msgCap, msgCap, msgCap - 1, msgCap + 1, 2 * msgCap, 128, 64, 512}[r.intn(8)] - fixed
+							if target < 1 {
+								target = 1 + r.intn(40)
+							}
+							raw := make([]byte, target)
+							for i := range raw {
+								raw[i] = "OCRA-1:HTPSQN08"[r.intn(15)]
+							}
+							c.Raw = string(raw)
+							name = c.Raw
+							if r.intn(2) == 0 {
+								su = c
+							} else {
+								su = otp.RawSuite{SuiteConfig: c}
+							}
+							cfg = c
+						}
 						in := otp.OCRAInput{}
 						msg := append([]byte(name), 0)
 						fill := func(n int) []byte {
@@ -220,7 +266,7 @@ func main() {
 						}
 						want := code(refHMAC(int(cfg.Hash), key, msg), cfg.Digits)
 						got, err := otp.GenerateOCRA(secret, su, in)
-						op := fmt.Sprintf("GenerateOCRA key=%x suite=%s", key, name)
+						op := fmt.Sprintf("GenerateOCRA key=%x suite=%s cfg=%+v message-bytes=%d", key, name, cfg, len(msg))
 						if err != nil || got != want {
 							report(violation{"concurrent-result", op, got, want})
 						}
